@@ -54,7 +54,7 @@ theorem segSum_replace (segs : List Seg) (old new : Seg) (h : old ∈ segs) :
 
 /-- normalise a hypothesis `(do …) = .ok r` -/
 macro "msimp" "at" h:ident : tactic =>
-  `(tactic| simp only [bind_ok, pure_ok, throw_ok, failIf_ok, false_and, and_false, exists_false] at $h:ident)
+  `(tactic| try simp only [bind_ok, pure_ok, throw_ok, failIf_ok, false_and, and_false, exists_false] at $h:ident)
 
 /-- drop the leading components of a nested `∃ a, x = .ok a ∧ …` until the last conjunct remains -/
 macro "mlast" h:ident : tactic => `(tactic| repeat (first
@@ -179,5 +179,522 @@ theorem add_segment_spec {s s' : St} {tbase tsize : Nat} (h : add_segment s tbas
     cases s.segs with
     | nil => simp [segSum]
     | cons g gs => simp [segSum]; omega
+
+theorem tag_fields (s : St) (t : String) :
+    (s.tag t).footprint = s.footprint ∧ (s.tag t).segs = s.segs ∧ (s.tag t).evs = s.evs ∧ (s.tag t).osq = s.osq :=
+  ⟨rfl, rfl, rfl, rfl⟩
+
+theorem find?_mem {α : Type} {p : α → Bool} {l : List α} {a : α} (h : l.find? p = some a) : a ∈ l := by
+  induction l with
+  | nil => simp at h
+  | cons x xs ih =>
+    simp only [List.find?] at h
+    split at h
+    · injection h with h; subst h; exact List.mem_cons_self
+    · exact List.mem_cons_of_mem _ (ih h)
+
+/-- every branch of `sys_alloc_place` adds exactly the new mapping to the segment list -/
+theorem sys_alloc_place_spec {s : St} {tbase tsize nb : Nat} {r : Sum St (St × Nat)}
+    (h : sys_alloc_place s tbase tsize nb = .ok r) :
+    ∃ s', (r = .inl s' ∨ ∃ m, r = .inr (s', m)) ∧
+      s'.footprint = s.footprint ∧ s'.evs = s.evs ∧ s'.osq = s.osq ∧ segSum s'.segs = segSum s.segs + tsize := by
+  unfold sys_alloc_place at h
+  dsimp only at h
+  split at h
+  · msimp at h
+    obtain ⟨_, he, _, _, s1, hs1, h⟩ := h
+    have h1 := init_top_fp hs1
+    subst h
+    refine ⟨_, Or.inl rfl, ?_⟩
+    simp only [tag_fields, h1.1, h1.2.1, h1.2.2.1, h1.2.2.2]
+    have : s.segs = [] := by
+      cases hs : s.segs with
+      | nil => rfl
+      | cons g gs => rw [hs] at he; simp at he
+    simp [segSum, this]
+  · split at h
+    · rename_i sp hext
+      msimp at h
+      obtain ⟨s1, hs1, h⟩ := h
+      have h1 := init_top_fp hs1
+      subst h
+      refine ⟨_, Or.inl rfl, ?_⟩
+      simp only [tag_fields, h1.1, h1.2.1, h1.2.2.1, h1.2.2.2]
+      refine ⟨trivial, trivial, trivial, ?_⟩
+      have hmem : sp ∈ s.segs := by
+        split at hext
+        · rename_i sp' hf
+          split at hext
+          · injection hext with hext; subst hext; exact find?_mem hf
+          · cases hext
+        · cases hext
+      have := segSum_replace s.segs sp { sp with size := sp.size + tsize } hmem
+      simp only at this
+      omega
+    · split at h
+      · rename_i sq hf
+        msimp at h
+        obtain ⟨⟨s1, m⟩, hp, h⟩ := h
+        obtain ⟨h', hh⟩ := prepend_alloc_spec hp
+        subst h
+        refine ⟨s1, Or.inr ⟨m, rfl⟩, ?_⟩
+        subst hh
+        refine ⟨rfl, rfl, rfl, ?_⟩
+        have := segSum_replace s.segs sq { sq with base := tbase, size := sq.size + tsize } (find?_mem hf)
+        simp only at this
+        show segSum (replaceSeg s.segs sq _) = _
+        omega
+      · msimp at h
+        obtain ⟨s1, ha, h⟩ := h
+        have h1 := add_segment_spec ha
+        subst h
+        refine ⟨_, Or.inl rfl, ?_⟩
+        simp only [tag_fields]
+        exact ⟨h1.1, h1.2.1, h1.2.2.1, h1.2.2.2⟩
+
+theorem sys_alloc_book {s s' : St} {nb mem : Nat} (h : sys_alloc s nb = .ok (s', mem)) : Book s s' := by
+  unfold sys_alloc at h
+  dsimp only at h
+  msimp at h
+  obtain ⟨⟨res, s1⟩, hp, h⟩ := h
+  obtain ⟨q, hq, hs1⟩ := popM_spec hp
+  dsimp only at h
+  split at h
+  · msimp at h
+    simp only [Prod.mk.injEq] at h
+    obtain ⟨h, _⟩ := h
+    subst h; subst hs1
+    constructor
+    · rfl
+    · simp [got_append, gave_append, got, gave]; omega
+  · rename_i tbase
+    msimp at h
+    obtain ⟨r, hr, h⟩ := h
+    obtain ⟨s2, hor, hf, he, ho, hsum⟩ := sys_alloc_place_spec hr
+    have key : Book s s2 := by
+      subst hs1
+      constructor
+      · simp only at hf hsum ⊢
+        rw [hf, hsum]; omega
+      · simp only at hf he ⊢
+        rw [hf, he]
+        simp [got_append, gave_append, got, gave]; omega
+    rcases hor with hor | ⟨m, hor⟩
+    · subst hor
+      dsimp only at h
+      split at h
+      · msimp at h
+        mlast h
+        simp only [Prod.mk.injEq] at h
+        obtain ⟨h, _⟩ := h
+        subst h
+        exact key.trans (Book.of_same rfl rfl rfl)
+      · msimp at h
+        simp only [Prod.mk.injEq] at h
+        obtain ⟨h, _⟩ := h
+        subst h
+        exact key.trans (Book.of_same rfl rfl rfl)
+    · subst hor
+      dsimp only at h
+      msimp at h
+      simp only [Prod.mk.injEq] at h
+      obtain ⟨h, _⟩ := h
+      subst h
+      exact key
+
+theorem releaseLoop_spec (rest : List Seg) : ∀ {s s' : St} {rel n rel' n' : Nat} {rest' : List Seg},
+    releaseLoop rest s rel n = .ok (rest', s', rel', n') →
+    s'.segs = s.segs ∧ s'.footprint + segSum rest = s.footprint + segSum rest' ∧
+    s'.footprint + gave s'.evs + got s.evs = s.footprint + got s'.evs + gave s.evs := by
+  induction rest with
+  | nil =>
+    intro s s' rel n rel' n' rest' h
+    unfold releaseLoop at h
+    msimp at h
+    simp only [Prod.mk.injEq] at h
+    obtain ⟨h1, h2, _, _⟩ := h
+    subst h1; subst h2
+    exact ⟨rfl, rfl, by omega⟩
+  | cons g rest ih =>
+    intro s s' rel n rel' n' rest' h
+    unfold releaseLoop at h
+    dsimp only at h
+    msimp at h
+    obtain ⟨e, he, _, _, h⟩ := h
+    split at h
+    · msimp at h
+      obtain ⟨_, _, h1, hh1, ⟨ok, s1⟩, hu, h⟩ := h
+      obtain ⟨q, hq, hs1⟩ := popU_spec hu
+      dsimp only at h
+      split at h
+      · rename_i hok
+        msimp at h
+        obtain ⟨_, hlt, ⟨r1, s2, rl, nn⟩, hrec, h⟩ := h
+        have := ih hrec
+        simp only [Prod.mk.injEq] at h
+        obtain ⟨e1, e2, _, _⟩ := h
+        subst e1; subst e2; subst hs1
+        simp only [decide_eq_false_iff_not, Nat.not_lt] at hlt
+        simp only at this hlt ⊢
+        obtain ⟨t1, t2, t3⟩ := this
+        refine ⟨t1, ?_, ?_⟩
+        · simp only [segSum]; omega
+        · subst hok
+          simp only [got_append, gave_append, got, gave] at t3 ⊢
+          omega
+      · rename_i hok
+        msimp at h
+        obtain ⟨h2, _, ⟨r1, s2, rl, nn⟩, hrec, h⟩ := h
+        have := ih hrec
+        simp only [Prod.mk.injEq] at h
+        obtain ⟨e1, e2, _, _⟩ := h
+        subst e1; subst e2; subst hs1
+        simp only at this ⊢
+        obtain ⟨t1, t2, t3⟩ := this
+        refine ⟨t1, ?_, ?_⟩
+        · simp only [segSum]; omega
+        · simp only [Bool.not_eq_true] at hok
+          subst hok
+          simp only [got_append, gave_append, got, gave] at t3 ⊢
+          omega
+    · msimp at h
+      obtain ⟨⟨r1, s2, rl, nn⟩, hrec, h⟩ := h
+      have := ih hrec
+      simp only [Prod.mk.injEq] at h
+      obtain ⟨e1, e2, _, _⟩ := h
+      subst e1; subst e2
+      obtain ⟨t1, t2, t3⟩ := this
+      refine ⟨t1, ?_, t3⟩
+      simp only [segSum]; omega
+
+theorem release_unused_segments_book {s s' : St} {r : Nat} (h : release_unused_segments s = .ok (s', r)) :
+    Book s s' := by
+  unfold release_unused_segments at h
+  split at h
+  · msimp at h
+    simp only [Prod.mk.injEq] at h
+    obtain ⟨h, _⟩ := h; subst h
+    exact Book.of_same rfl rfl rfl
+  · rename_i hd rest hsegs
+    msimp at h
+    obtain ⟨⟨r1, s2, rl, nn⟩, hrec, h⟩ := h
+    obtain ⟨t1, t2, t3⟩ := releaseLoop_spec rest hrec
+    simp only [Prod.mk.injEq] at h
+    obtain ⟨h, _⟩ := h; subst h
+    constructor
+    · simp only [hsegs, segSum]; omega
+    · exact t3
+
+/-- what `trim_release` did: nothing but OS calls; the bytes it reports released are exactly what
+those calls returned to the OS -/
+theorem trim_release_spec {s s' : St} {sp : Seg} {extra rel : Nat} (h : trim_release s sp extra = .ok (s', rel)) :
+    s'.h = s.h ∧ s'.segs = s.segs ∧ s'.footprint = s.footprint ∧
+    gave s'.evs = gave s.evs + rel ∧ got s'.evs = got s.evs ∧ (rel ≠ 0 → rel ≤ sp.size) := by
+  unfold trim_release at h
+  dsimp only at h
+  split at h
+  · rename_i hc
+    simp only [Bool.and_eq_true, decide_eq_true_eq] at hc
+    msimp at h
+    obtain ⟨⟨ok, s1⟩, hr, h⟩ := h
+    obtain ⟨q, hq, hs1⟩ := popR_spec hr
+    dsimp only at h
+    split at h
+    · rename_i hok
+      msimp at h
+      simp only [Prod.mk.injEq] at h
+      obtain ⟨e1, e2⟩ := h
+      subst e1; subst e2; subst hs1; subst hok
+      refine ⟨rfl, rfl, rfl, ?_, ?_, fun _ => hc.1⟩
+      · simp only [gave_append, gave]; omega
+      · simp only [got_append, got]; omega
+    · rename_i hok
+      simp only [Bool.not_eq_true] at hok
+      msimp at h
+      obtain ⟨⟨ok2, s2⟩, hu, h⟩ := h
+      obtain ⟨q2, hq2, hs2⟩ := popU_spec hu
+      simp only [Prod.mk.injEq] at h
+      obtain ⟨e1, e2⟩ := h
+      subst e1; subst e2; subst hs2; subst hs1; subst hok
+      cases ok2
+      · refine ⟨rfl, rfl, rfl, ?_, ?_, fun hh => absurd rfl hh⟩
+        · simp [gave_append, gave]
+        · simp [got_append, got]
+      · refine ⟨rfl, rfl, rfl, ?_, ?_, fun _ => hc.1⟩
+        · simp only [gave_append, gave, if_true]; omega
+        · simp [got_append, got]
+  · msimp at h
+    simp only [Prod.mk.injEq] at h
+    obtain ⟨e1, e2⟩ := h
+    subst e1; subst e2
+    exact ⟨rfl, rfl, rfl, by omega, rfl, fun hh => absurd rfl hh⟩
+
+theorem trim_top_book {s s' : St} {pad rel : Nat} (h : trim_top s pad = .ok (s', rel)) : Book s s' := by
+  unfold trim_top at h
+  dsimp only at h
+  split at h
+  · split at h
+    · msimp at h
+    · rename_i sp hsp
+      msimp at h
+      obtain ⟨⟨s1, r1⟩, ht, h⟩ := h
+      obtain ⟨t1, t2, t3, t4, t5, t6⟩ := trim_release_spec ht
+      have hmem : sp ∈ s.segs := find?_mem hsp
+      dsimp only at h
+      split at h
+      · rename_i hne
+        msimp at h
+        obtain ⟨_, hlt, s2, hi, h⟩ := h
+        have i1 := init_top_fp hi
+        simp only [Prod.mk.injEq] at h
+        obtain ⟨h, _⟩ := h; subst h
+        simp only [decide_eq_false_iff_not, Nat.not_lt] at hlt
+        have := segSum_replace s1.segs sp { sp with size := sp.size - r1 } (t2 ▸ hmem)
+        have hle := t6 hne
+        simp only at this
+        have f2 : s2.footprint = s1.footprint - r1 := i1.1
+        have g2 : s2.segs = replaceSeg s1.segs sp { sp with size := sp.size - r1 } := i1.2.1
+        have e2 : s2.evs = s1.evs := i1.2.2.1
+        constructor
+        · simp only [tag_fields, f2, g2]; rw [t2] at this ⊢; omega
+        · simp only [tag_fields, f2, e2]; omega
+      · msimp at h
+        simp only [Prod.mk.injEq] at h
+        obtain ⟨h, h2⟩ := h; subst h
+        rename_i hz
+        simp only [ne_eq, Decidable.not_not] at hz
+        constructor
+        · simp only [tag_fields, t2, t3]
+        · simp only [tag_fields, t3]; omega
+  · msimp at h
+    simp only [Prod.mk.injEq] at h
+    obtain ⟨h, _⟩ := h; subst h; exact Book.refl _
+
+theorem sys_trim_book {s s' : St} {pad : Nat} {b : Bool} (h : sys_trim s pad = .ok (s', b)) : Book s s' := by
+  unfold sys_trim at h
+  dsimp only at h
+  split at h
+  · msimp at h
+    obtain ⟨⟨s1, rel⟩, h1, ⟨s2, r2⟩, h2, h⟩ := h
+    have b1 := trim_top_book h1
+    have b2 := release_unused_segments_book h2
+    simp only [Prod.mk.injEq] at h
+    obtain ⟨h, _⟩ := h
+    subst h
+    refine (b1.trans b2).trans ?_
+    split
+    · exact Book.of_same rfl rfl rfl
+    · exact Book.refl _
+  · msimp at h
+    simp only [Prod.mk.injEq] at h
+    obtain ⟨h, _⟩ := h; subst h; exact Book.refl _
+
+theorem free_book {s s' : St} {mem : Nat} (h : free s mem = .ok s') : Book s s' := by
+  unfold free at h
+  msimp at h
+  obtain ⟨⟨h1, t⟩, hf, h⟩ := h
+  dsimp only at h
+  split at h
+  · msimp at h; subst h; exact Book.of_same rfl rfl rfl
+  · split at h
+    · msimp at h
+      obtain ⟨⟨s1, b⟩, ht, h⟩ := h
+      subst h
+      exact (Book.of_same rfl rfl rfl : Book s { s with h := h1 }).trans (sys_trim_book ht)
+    · msimp at h; subst h; exact Book.of_same rfl rfl rfl
+  · msimp at h
+    obtain ⟨_, _, h⟩ := h
+    split at h
+    · msimp at h
+      obtain ⟨⟨s1, b⟩, ht, h⟩ := h
+      subst h
+      exact (Book.of_same rfl rfl rfl : Book s (St.tag { s with h := h1, release_checks := s.release_checks - 1 } "release-check")).trans
+        (release_unused_segments_book ht)
+    · msimp at h; subst h; exact Book.of_same rfl rfl rfl
+
+theorem inner_malloc_book {s s' : St} {size mem : Nat} (h : inner_malloc s size = .ok (s', mem)) : Book s s' := by
+  unfold inner_malloc at h
+  msimp at h
+  obtain ⟨r, hr, h⟩ := h
+  split at h
+  · msimp at h
+    simp only [Prod.mk.injEq] at h
+    obtain ⟨h, _⟩ := h; subst h; exact Book.of_same rfl rfl rfl
+  · msimp at h
+    simp only [Prod.mk.injEq] at h
+    obtain ⟨h, _⟩ := h; subst h; exact Book.refl _
+  · exact sys_alloc_book h
+
+theorem memalign_book {s s' : St} {al bytes mem : Nat} (h : memalign s al bytes = .ok (s', mem)) : Book s s' := by
+  unfold memalign at h
+  generalize (if al < MIN_CHUNK_SIZE then MIN_CHUNK_SIZE else al) = al at h
+  unfold memalign_body at h
+  dsimp only at h
+  msimp at h
+  obtain ⟨_, _, h⟩ := h
+  split at h
+  · msimp at h
+    simp only [Prod.mk.injEq] at h
+    obtain ⟨h, _⟩ := h; subst h; exact Book.refl _
+  · msimp at h
+    obtain ⟨⟨s1, m1⟩, hm, h⟩ := h
+    have b1 := inner_malloc_book hm
+    have b0 : Book s s1 := (Book.of_same rfl rfl rfl : Book s (s.tag "memalign")).trans b1
+    dsimp only at h
+    split at h
+    · msimp at h
+      simp only [Prod.mk.injEq] at h
+      obtain ⟨h, _⟩ := h; subst h; exact b0
+    · msimp at h
+      obtain ⟨⟨h2, m2⟩, _, h⟩ := h
+      simp only [Prod.mk.injEq] at h
+      obtain ⟨h, _⟩ := h; subst h
+      exact b0.trans (Book.of_same rfl rfl rfl)
+
+theorem malloc_book {s s' : St} {size al mem : Nat} (h : malloc s size al = .ok (s', mem)) : Book s s' := by
+  unfold malloc at h
+  split at h
+  · exact inner_malloc_book h
+  · exact memalign_book h
+
+theorem calloc_book {s s' : St} {size al mem : Nat} {z : Bool} (h : calloc s size al = .ok (s', mem, z)) :
+    Book s s' := by
+  unfold calloc at h
+  msimp at h
+  obtain ⟨⟨s1, p⟩, hm, h⟩ := h
+  have b := malloc_book hm
+  dsimp only at h
+  split at h
+  · msimp at h
+    mlast h
+    simp only [Prod.mk.injEq] at h
+    obtain ⟨h, _⟩ := h; subst h; exact b
+  · msimp at h
+    simp only [Prod.mk.injEq] at h
+    obtain ⟨h, _⟩ := h; subst h; exact b
+
+theorem inner_realloc_book {s s' : St} {oldmem bytes mem : Nat} {c : Option Copy}
+    (h : inner_realloc s oldmem bytes = .ok (s', mem, c)) : Book s s' := by
+  unfold inner_realloc at h
+  split at h
+  · msimp at h
+    simp only [Prod.mk.injEq] at h
+    obtain ⟨h, _⟩ := h; subst h; exact Book.refl _
+  · dsimp only at h
+    msimp at h
+    obtain ⟨_, _, r, hr, h⟩ := h
+    split at h
+    · msimp at h
+      simp only [Prod.mk.injEq] at h
+      obtain ⟨h, _⟩ := h; subst h; exact Book.of_same rfl rfl rfl
+    · msimp at h
+      obtain ⟨⟨s1, p⟩, hm, h⟩ := h
+      have b1 : Book s s1 := (Book.of_same rfl rfl rfl : Book s (s.tag "realloc-move")).trans (inner_malloc_book hm)
+      dsimp only at h
+      split at h
+      · msimp at h
+        obtain ⟨e, _, _, _, _, _, s2, hf, h⟩ := h
+        simp only [Prod.mk.injEq] at h
+        obtain ⟨h, _⟩ := h; subst h
+        exact b1.trans (free_book hf)
+      · msimp at h
+        simp only [Prod.mk.injEq] at h
+        obtain ⟨h, _⟩ := h; subst h; exact b1
+
+theorem realloc_book {s s' : St} {ptr os oa ns mem : Nat} {c : Option Copy}
+    (h : realloc s ptr os oa ns = .ok (s', mem, c)) : Book s s' := by
+  unfold realloc at h
+  split at h
+  · exact inner_realloc_book h
+  · msimp at h
+    obtain ⟨⟨s1, p⟩, hm, h⟩ := h
+    have b1 : Book s s1 := (Book.of_same rfl rfl rfl : Book s (s.tag "realloc-overaligned")).trans (malloc_book hm)
+    dsimp only at h
+    split at h
+    · msimp at h
+      obtain ⟨s2, hf, h⟩ := h
+      simp only [Prod.mk.injEq] at h
+      obtain ⟨h, _⟩ := h; subst h
+      exact b1.trans (free_book hf)
+    · msimp at h
+      simp only [Prod.mk.injEq] at h
+      obtain ⟨h, _⟩ := h; subst h; exact b1
+
+/-- the state an operation starts from: the previous state with the op's OS answers installed -/
+def Hist.start (hs : Hist) (os : List OsDir) : St :=
+  { hs.st with osq := os, evs := [], h := { hs.st.h with tr := [] } }
+
+theorem step_book {hs hs' : Hist} {op : Op} {os : List OsDir} {out : Out}
+    (h : hs.step op os = .ok (hs', out)) : Book (hs.start os) hs'.st := by
+  unfold Hist.step at h
+  dsimp only at h
+  split at h
+  · msimp at h
+    obtain ⟨_, _, ⟨s1, p⟩, hm, _, _, h⟩ := h
+    simp only [Prod.mk.injEq] at h
+    obtain ⟨h, _⟩ := h; subst h
+    exact malloc_book hm
+  · msimp at h
+    obtain ⟨_, _, ⟨s1, p, z⟩, hm, _, _, h⟩ := h
+    simp only [Prod.mk.injEq] at h
+    obtain ⟨h, _⟩ := h; subst h
+    exact calloc_book hm
+  · split at h
+    · msimp at h
+    · msimp at h
+      obtain ⟨⟨s1, p, c⟩, hm, _, _, h⟩ := h
+      simp only [Prod.mk.injEq] at h
+      obtain ⟨h, _⟩ := h; subst h
+      exact realloc_book hm
+  · split at h
+    · msimp at h
+    · msimp at h
+      obtain ⟨s1, hm, _, _, h⟩ := h
+      simp only [Prod.mk.injEq] at h
+      obtain ⟨h, _⟩ := h; subst h
+      exact free_book hm
+
+/-- footprint = sum of the segment sizes -/
+def FpInv (s : St) : Prop := s.footprint = segSum s.segs
+
+theorem step_fp {hs hs' : Hist} {op : Op} {os : List OsDir} {out : Out}
+    (h : hs.step op os = .ok (hs', out)) (hi : FpInv hs.st) : FpInv hs'.st := by
+  have b := (step_book h).fp
+  unfold FpInv at *
+  simp only [Hist.start] at b
+  omega
+
+theorem step_os {hs hs' : Hist} {op : Op} {os : List OsDir} {out : Out}
+    (h : hs.step op os = .ok (hs', out)) :
+    hs'.st.footprint + gave hs'.st.evs = hs.st.footprint + got hs'.st.evs := by
+  have b := (step_book h).os
+  simp only [Hist.start, got, gave] at b
+  omega
+
+theorem run_fp (ops : List (Op × List OsDir)) : ∀ {hs hs' : Hist} {evs : List OsEv},
+    hs.run ops = .ok (hs', evs) → FpInv hs.st →
+    FpInv hs'.st ∧ hs'.st.footprint + gave evs = hs.st.footprint + got evs := by
+  induction ops with
+  | nil =>
+    intro hs hs' evs h hi
+    unfold Hist.run at h
+    msimp at h
+    simp only [Prod.mk.injEq] at h
+    obtain ⟨h1, h2⟩ := h; subst h1; subst h2
+    exact ⟨hi, by simp [got, gave]⟩
+  | cons x rest ih =>
+    intro hs hs' evs h hi
+    obtain ⟨op, os⟩ := x
+    unfold Hist.run at h
+    msimp at h
+    obtain ⟨⟨hs1, o1⟩, h1, ⟨hs2, e2⟩, h2, h⟩ := h
+    simp only [Prod.mk.injEq] at h
+    obtain ⟨e1, e3⟩ := h; subst e1; subst e3
+    have i1 := step_fp h1 hi
+    have o1' := step_os h1
+    obtain ⟨i2, o2⟩ := ih h2 i1
+    refine ⟨i2, ?_⟩
+    simp only [got_append, gave_append] at o2 ⊢
+    omega
 
 end TinyVerif.Dl
